@@ -55,6 +55,22 @@ func traceOpaque(ev *core.AEvent, _ *core.AMem) (core.AVal, bool) {
 	return core.AVal{}, false
 }
 
+func allPanicked(outs []core.AOutcome) bool {
+	for _, o := range outs {
+		if !o.Panicked {
+			return false
+		}
+	}
+	return len(outs) > 0
+}
+
+func lastCond(o core.AOutcome) string {
+	if len(o.Conds) == 0 {
+		return ""
+	}
+	return o.Conds[len(o.Conds)-1]
+}
+
 func oneLive(outs []core.AOutcome) (core.AOutcome, bool) {
 	var live []core.AOutcome
 	for _, o := range outs {
@@ -104,9 +120,14 @@ func r3bits(c *core.Ctx) {
 			symOctets(mem, "in", nIn, n%8)
 			ex := core.NewExec()
 			ex.OnCall = traceOpaque
+			ex.Bounds = true
 			args := []core.AVal{{K: core.APtr, Path: "p0", NonNil: true}, {K: core.ASlice, Path: "in", Lo: 0, Len: nIn, NonNil: true}, {K: core.AInt, Bits: core.ConstBits(uint64(n), 64)}}
 			outs, err := ex.Run(fn, args, mem)
 			o, one := oneLive(outs)
+			if err == nil && len(outs) > 0 && allPanicked(outs) {
+				bad = fmt.Sprintf("offset %d, %d bits: putBitString panics (%s)", off, n, lastCond(outs[0]))
+				break
+			}
 			if err != nil || !one || len(ex.Unsound) > 0 {
 				c.SoftUndecided("%s: putBitString could not be folded for offset %d, %d bits (%v, %d outcomes, %v)", R, off, n, err, len(outs), ex.Unsound)
 				return
@@ -187,6 +208,7 @@ func r3bitsValue(c *core.Ctx) {
 			mem.Store("p0.bitsOffset", core.AVal{K: core.AInt, Bits: core.ConstBits(uint64(off), 64)}, nil)
 			ex := core.NewExec()
 			ex.OnCall = traceOpaque
+			ex.Bounds = true
 			val := core.ArgBits("p1", 64, n)
 			args := []core.AVal{{K: core.APtr, Path: "p0", NonNil: true}, val, {K: core.AInt, Bits: core.ConstBits(uint64(n), 64)}}
 			outs, err := ex.Run(fn, args, mem)
@@ -272,12 +294,21 @@ func r3bitsValue(c *core.Ctx) {
 	c.Check(bad == "", R, "aper.putBitsValue:bit-placement", fn.Pos(), fmt.Sprintf("%d (offset, length) cases, symbolic value", cases), "putBitsValue misplaces bits: %s", bad)
 }
 
+var r4bitsResult = map[*core.Ctx]bool{}
+
+// r4bitsHolds runs R4.bits (once) and reports whether both bit readers passed.
+func r4bitsHolds(c *core.Ctx) bool {
+	r4bits(c)
+	return r4bitsResult[c]
+}
+
 func r4bits(c *core.Ctx) {
 	if !c.Once("r4bits") {
 		return
 	}
+	r4bitsResult[c] = true
 	const R = "R4.bits"
-	c.Rule(R, "GetBitString / GetBitsValue: for every bit offset and every length of 1..33 (32) bits the result is the source's bits offset..offset+length-1 in order, left-aligned resp. as a big-endian number, nothing else set")
+	c.Rule(R, "GetBitString / GetBitsValue: for every bit offset and every length of 1..33 (64) bits the result is the source's bits offset..offset+length-1 in order, left-aligned resp. as a big-endian number, nothing else set; a source one octet too short is refused without reading past its end")
 	u8 := types.Typ[types.Uint8]
 	for _, name := range []string{"GetBitString", "GetBitsValue"} {
 		fn := mustFunc(c, pAper, name)
@@ -289,7 +320,7 @@ func r4bits(c *core.Ctx) {
 		cases := 0
 		maxN := bitsMaxLen
 		if name == "GetBitsValue" {
-			maxN = 32
+			maxN = 64
 		}
 	outer:
 		for off := 0; off < 8; off++ {
@@ -299,9 +330,36 @@ func r4bits(c *core.Ctx) {
 				symOctets(mem, "src", nSrc, 0)
 				ex := core.NewExec()
 				ex.OnCall = traceOpaque
+				ex.Bounds = true
 				args := []core.AVal{{K: core.ASlice, Path: "src", Lo: 0, Len: nSrc, NonNil: true}, {K: core.AInt, Bits: core.ConstBits(uint64(off), 64)}, {K: core.AInt, Bits: core.ConstBits(uint64(n), 64)}}
+				// a source one octet short of what offset+length needs is refused, not read past its end
+				// (at least one octet: with an empty source and a non-zero offset the offset itself is outside
+				// the source, which the reader never produces - its offset is always inside the octet in progress)
+				if nSrc >= 2 {
+					exS := core.NewExec()
+					exS.OnCall = traceOpaque
+					exS.Bounds = true
+					argsS := []core.AVal{{K: core.ASlice, Path: "src", Lo: 0, Len: nSrc - 1, NonNil: true}, args[1], args[2]}
+					outsS, errS := exS.Run(fn, argsS, mem)
+					if errS == nil && len(exS.Unsound) == 0 {
+						for _, oS := range outsS {
+							if oS.Panicked {
+								bad = fmt.Sprintf("offset %d, %d bits from a source of %d octets: %s panics (%s) instead of refusing", off, n, nSrc-1, name, lastCond(oS))
+								break outer
+							}
+							if len(oS.Ret) == 2 && !oS.Ret[1].NonNil {
+								bad = fmt.Sprintf("offset %d, %d bits from a source of %d octets: no error is returned", off, n, nSrc-1)
+								break outer
+							}
+						}
+					}
+				}
 				outs, err := ex.Run(fn, args, mem)
 				o, one := oneLive(outs)
+				if err == nil && len(outs) > 0 && allPanicked(outs) {
+					bad = fmt.Sprintf("offset %d, %d bits inside the source: %s panics (%s)", off, n, name, lastCond(outs[0]))
+					break outer
+				}
 				if err != nil || !one || len(ex.Unsound) > 0 || len(o.Ret) != 2 {
 					c.SoftUndecided("%s: %s could not be folded for offset %d, %d bits (%v, %d outcomes, %v)", R, name, off, n, err, len(outs), ex.Unsound)
 					bad = "-"
@@ -354,7 +412,11 @@ func r4bits(c *core.Ctx) {
 			}
 		}
 		if bad == "-" {
+			r4bitsResult[c] = false
 			continue
+		}
+		if bad != "" {
+			r4bitsResult[c] = false
 		}
 		c.Sites(cases)
 		c.Check(bad == "", R, "aper."+name+":bit-selection", fn.Pos(), fmt.Sprintf("%d (offset, length) cases, symbolic octets", cases), "%s selects the wrong bits: %s", name, bad)
